@@ -63,7 +63,8 @@ class View:
                 continue
             if not (isinstance(l.target, Obj) and l.target.cls == "Signal"):
                 continue
-            alias[k] = l.value
+            # a wire narrower than the value it carries truncates: keep that visible (Op "trunc") instead of silently widening the design
+            alias[k] = l.value if fits(l.target, l.value) is not False else Op("trunc", (l.value, twidth(l.target)[0]))
 
         def sub(t, dep=0):
             if dep > 8:
@@ -398,3 +399,123 @@ def share(ctx, ob, prop, oids, cap=150):
                 ob.refute(o.oid + ":" + r["key"], r["msg"], r.get("loc"))
             for u in o.unknowns:
                 ob.unknown(u)
+
+
+# ---------------------------------------------------------------------------------------------------
+# width inference (upper bounds) - used to keep alias inlining sound: a wire narrower than its value truncates
+def twidth(t, depth=0):
+    """Upper bound of the bit width of hardware term t as a list of alternative terms (the width is <= the max of
+    them), or None when a leaf's width is not known statically."""
+    if depth > 12:
+        return None
+    if isinstance(t, Const):
+        if isinstance(t.v, bool):
+            return [Const(1)]
+        if isinstance(t.v, int) and t.v >= 0:
+            return [Const(max(t.v.bit_length(), 1))]
+        return None
+    if isinstance(t, Obj):
+        if t.cls != "Signal":
+            return None
+        if t.args:
+            a = t.args[0]
+            if isinstance(a, (ListV,)):
+                return None
+            return [a]
+        if "max" in t.kwargs or "min" in t.kwargs or "bits_sign" in t.kwargs:
+            mx = t.kwargs.get("max")
+            if isinstance(mx, Const) and isinstance(mx.v, int) and "min" not in t.kwargs and mx.v > 0:
+                return [Const(max((mx.v - 1).bit_length(), 1))]
+            return None
+        if isinstance(t.meta.get("like"), V):
+            return twidth(t.meta["like"], depth + 1)
+        return [Const(1)]
+    if not isinstance(t, Op):
+        return None
+    o, a = t.op, t.args
+
+    def add(ws, k):
+        return [Op("+", (w, k)) for w in ws]
+
+    def cross(lists, f):
+        out = [None]
+        for ws in lists:
+            if ws is None:
+                return None
+            out = [(p, w) for p in out for w in ws]
+            if len(out) > 16:
+                return None
+        res = []
+        for tup in out:
+            xs = []
+            while tup is not None:
+                tup, x = tup
+                xs.append(x)
+            res.append(f(list(reversed(xs))))
+        return res
+    if o in ("==", "!=", "<", "<=", ">", ">=", "not", "index", "and", "or"):
+        return [Const(1)]
+    if o in ("~", ">>", "trunc") and o != "trunc":
+        return twidth(a[0], depth + 1)
+    if o == "trunc":
+        return [a[1]]
+    if o == "&":
+        ws = [twidth(x, depth + 1) for x in a]
+        ws = [w for w in ws if w is not None]
+        return min(ws, key=len) if ws else None
+    if o in ("|", "^", "phi", "ifexp", "Mux", "+", "-"):
+        xs = a[1:] if o in ("phi", "ifexp", "Mux") else a
+        out = []
+        for x in xs:
+            w = twidth(x, depth + 1)
+            if w is None:
+                return None
+            out.extend(w)
+        # the carry of + / - is deliberately not counted: wrap-around arithmetic in a register of the operands' width is the normal idiom
+        return out
+    if o == "<<":
+        if isinstance(a[1], Const) or (isinstance(a[1], (Sym, Op)) and not _has_signal(a[1])):
+            w = twidth(a[0], depth + 1)
+            return None if w is None else add(w, a[1])
+        return None
+    if o == "slice":
+        lo = Const(0) if (isinstance(a[1], Const) and a[1].v is None) else a[1]
+        if isinstance(lo, Const) and isinstance(lo.v, int) and lo.v < 0:
+            return None
+        if isinstance(a[2], Const) and a[2].v is None:
+            w = twidth(a[0], depth + 1)
+            return None if w is None else [Op("-", (x, lo)) for x in w]
+        if isinstance(a[2], Const) and isinstance(a[2].v, int) and a[2].v < 0:
+            return None
+        return [Op("-", (a[2], lo))]
+    if o == "Cat":
+        def s(xs):
+            r = xs[0]
+            for x in xs[1:]:
+                r = Op("+", (r, x))
+            return r
+        return cross([twidth(x, depth + 1) for x in a], s) if a else [Const(0)]
+    if o == "Replicate":
+        w = twidth(a[0], depth + 1)
+        return None if w is None else [Op("*", (x, a[1])) for x in w]
+    return None
+
+
+def _has_signal(t):
+    return any(isinstance(x, Obj) and x.cls == "Signal" for x in subterms(t))
+
+
+def fits(target, value):
+    """False: the value is PROVABLY wider than the declared width of `target` in some configuration arm (the wire truncates: width difference is a
+    positive constant); True: it provably fits; None: not comparable statically (symbolic widths of unrelated signals - e.g. a bus address narrowed to
+    the memory's address width, which is the normal idiom - or an unknown leaf width)."""
+    wv = twidth(value)
+    if wv is None:
+        return None
+    wt = twidth(target)
+    if wt is None or len(wt) != 1:
+        return None
+    res = [True if (isinstance(w, Const) and w.v == 1) else lin_ge(wt[0], w) for w in wv]      # every declared width is >= 1
+    if any(r is False for r in res):
+        return False
+    return True if all(r is True for r in res) else None
